@@ -37,6 +37,8 @@ type Enc struct {
 	notes     []string // abstractions / unsupported constructs met
 	assumed   map[string]bool
 	usedStr   map[string]bool
+	extras    []string
+	appCache  map[string]T
 }
 
 func newEnc(p *Program) *Enc {
@@ -154,6 +156,8 @@ const prelude = `(declare-sort Str 0)
 (declare-fun box_Str (Int Str) Iface)
 (declare-fun box_Slice (Int Slice) Iface)
 (declare-fun impl (Int Int) Bool)
+(declare-fun ptrlike (Int) Bool)
+(declare-fun uncomparable (Int) Bool)
 (declare-fun bitand (Int Int) Int)
 (declare-fun bitor (Int Int) Int)
 (declare-fun bitxor (Int Int) Int)
@@ -162,7 +166,7 @@ const prelude = `(declare-sort Str 0)
 (declare-fun mcard_Str ((Array Str Bool)) Int)
 `
 
-func (e *Enc) cone(goal string, extra []string) (decls []string, asserts []string, usesImpl bool) {
+func (e *Enc) cone(goal string, extra []string) (decls []string, asserts []string, used map[string]bool) {
 	seen := map[string]bool{}
 	var work []string
 	add := func(s string) {
@@ -195,11 +199,9 @@ func (e *Enc) cone(goal string, extra []string) (decls []string, asserts []strin
 		}
 	}
 	sort.Strings(visited)
+	used = seen
 	var sorts, others []string
 	for _, s := range visited {
-		if s == "impl" {
-			usesImpl = true
-		}
 		d, ok := e.decls[s]
 		if !ok || d == "" {
 			continue
@@ -228,7 +230,7 @@ func (e *Enc) Query(o *Obl) string {
 	} else {
 		goal = And(o.Path, Not(o.Cond)).S
 	}
-	decls, asserts, usesImpl := e.cone(goal, o.Extra)
+	decls, asserts, used := e.cone(goal, o.Extra)
 	var b strings.Builder
 	fmt.Fprintf(&b, "; obligation %s :: %s [%s] %s\n", o.Func, o.Name, o.Class, o.Pos)
 	b.WriteString(prelude)
@@ -239,8 +241,11 @@ func (e *Enc) Query(o *Obl) string {
 	}
 	// string literal distinctness
 	b.WriteString(e.prog.strPrelude(decls))
-	if usesImpl {
+	if used["impl"] {
 		b.WriteString(e.prog.implAsserts())
+	}
+	if used["ptrlike"] || used["uncomparable"] {
+		b.WriteString(e.prog.tagKindAsserts())
 	}
 	for _, a := range asserts {
 		b.WriteString(a)
